@@ -16,7 +16,8 @@ TInit == /\ tid \in 1..Len(Traces) /\ l = 1
          /\ reqs = [r \in Reqs |-> IdleReq] /\ evLog = << >> /\ unsol = 0 /\ wantUp = TRUE
 
 Dead(s) == s \in Socks /\ socks[s].st = "dead"
-TrIssue == IsEvent("issue") /\ \E werr \in BOOLEAN : Issue(E.r, werr)
+TrIssue == IsEvent("issue") /\ \E werr \in BOOLEAN : Issue(E.r, werr, E.big)
+TrPause == IsEvent("acc_pause") /\ AccPause(E.s)
 TrCancel == IsEvent("cancel") /\ CallerCancel(E.r)
 \* the API call returned: outcome class and, for a response, which request the body was written for
 TrRet == /\ IsEvent("ret")
@@ -51,7 +52,7 @@ Advance == /\ HasEv /\ E.t > now /\ Quiescent
            /\ \A d \in Deadlines : d >= now
            /\ UNCHANGED <<socks, cur, sem, semQ, reqs, evLog, unsol, wantUp, tid, l>>
 
-TNext == TrIssue \/ TrCancel \/ TrRet \/ TrSession \/ TrAccRx \/ TrAccTx \/ TrPeerClose \/ TrListener \/ TrClose \/ TrOpen \/ TrEnd
+TNext == TrIssue \/ TrPause \/ TrCancel \/ TrRet \/ TrSession \/ TrAccRx \/ TrAccTx \/ TrPeerClose \/ TrListener \/ TrClose \/ TrOpen \/ TrEnd
          \/ Silent \/ Advance
 TSpec == TInit /\ [][TNext]_tvars
 
